@@ -546,6 +546,31 @@ def _events(ctx, modname, base_name, enum_name):
                   if isinstance(s, ast.Call) and K.is_meth(s, 'split',
                                                            'rsplit')]
         if len(own) > 1:
+            # the last field may itself contain the separator: the split is
+            # bounded to len(fields) - 1 cuts
+            def lossless(sp):
+                # (a) at most len-1 cuts, (b) exact unpacking into len
+                # names (anything else raises), or (c) the remainder is
+                # re-joined with the same separator
+                if len(sp.args) == 2 and isinstance(
+                        sp.args[1], ast.Constant) and \
+                        sp.args[1].value == len(own) - 1:
+                    return True
+                for asg in K.walk_no_nested(fd.node):
+                    if isinstance(asg, ast.Assign) and asg.value is sp and \
+                            isinstance(asg.targets[0], ast.Tuple) and \
+                            len(asg.targets[0].elts) == len(own):
+                        return True
+                sep = N.txt(sp.args[0]) if sp.args else None
+                return any(isinstance(j, ast.Call) and K.is_meth(j, 'join')
+                           and N.txt(K.recv(j)) == sep
+                           for j in K.walk_no_nested(fd.node))
+            bounded = bool(splits) and all(lossless(sp) for sp in splits)
+            ctx.ob('C15.3', fd, splits[0] if splits else None, bounded,
+                   '%s.from_data cuts event_data into %d fields without '
+                   'dropping a remainder (bounded split, exact unpacking or '
+                   're-join)' % (cls.name, len(own)),
+                   construct='%s bounded split' % cls.name)
             ssep = set(N.txt(s.args[0]).strip("'") for s in splits
                        if s.args)
             ctx.ob('C15.3', fd, splits[0] if splits else None,
@@ -705,6 +730,42 @@ def _ldap(ctx):
                            cls.name, sorted(cleared), sorted(written)),
                        construct='%s empty-list clearing' % cls.name)
     ctx.require(n_tables >= 10, 'LDAP schema tables (found %d)' % n_tables)
+    # the allocation id <-> DN mapping: tenants are nested most-significant
+    # last in the DN, so both directions reverse, and both use ':' and '/'
+    enc_dn = mod.functions.get('_allocation_dn_parts')
+    dec_dn = mod.functions.get('_dn2cellalloc_id')
+    ctx.require(enc_dn is not None and dec_dn is not None,
+                '_allocation_dn_parts / _dn2cellalloc_id')
+
+    def reversals(func):
+        count = 0
+        for sub in K.walk_no_nested(func.node):
+            if isinstance(sub, ast.Call) and (
+                    K.callee_text(sub) == 'reversed' or
+                    K.is_meth(sub, 'reverse')):
+                count += 1
+            if isinstance(sub, ast.Subscript) and isinstance(
+                    sub.slice, ast.Slice) and sub.slice.step is not None \
+                    and N.txt(sub.slice.step) == '-1':
+                count += 1
+        return count
+
+    def seps(func, meth):
+        return sorted(set(
+            N.txt(K.recv(sub) if meth == 'join' else sub.args[0]).strip(
+                "'")
+            for sub in K.walk_no_nested(func.node)
+            if isinstance(sub, ast.Call) and K.is_meth(sub, meth) and
+            (meth == 'join' or sub.args) and
+            isinstance(K.recv(sub) if meth == 'join' else sub.args[0],
+                       ast.Constant)))
+    ctx.ob('C15.5', dec_dn, None,
+           reversals(enc_dn) % 2 == reversals(dec_dn) % 2 and
+           ':' in seps(enc_dn, 'split') and ':' in seps(dec_dn, 'join'),
+           'tenant path order: the DN encoder reverses %d time(s), the '
+           'decoder %d time(s); both use the \':\' separator' % (
+               reversals(enc_dn), reversals(dec_dn)),
+           construct='allocation id <-> DN tenant order')
     conv = {}
     for name in ('_entry_2_dict', '_dict_2_entry'):
         func = mod.functions.get(name)
